@@ -74,11 +74,23 @@ def one(case, acc, prefix='real-transport'):
             try:
                 if r < 0.3 and nxt < len(lines):
                     k = min(len(lines) - 1, nxt + rng.randint(0, 3))
-                    c.expect_exact(conv('L%05d:' % k))
+                    lit = conv('L%05d:' % k)
+                    c.expect_exact(lit)
+                    acc.count('real_match_clauses')
+                    if c.after != lit or lit in c.before:
+                        acc.violation(prefix + ':match-not-leftmost-or-not-genuine:' + case['tr'], '%s maxread=%d expect_exact(%r): after=%r, '
+                                      'before ends %r' % (case['tr'], case['maxread'], lit, c.after, short(c.before[-40:])), case)
+                        return False
                     handed += c.before + c.after
                     nxt = k + 1
                 elif r < 0.5:
-                    c.expect(conv(r'L(\d{5}):'))
+                    pat = conv(r'L(\d{5}):')
+                    c.expect(pat)
+                    acc.count('real_match_clauses')
+                    if re.fullmatch(pat, c.after) is None or re.search(pat, c.before) is not None:
+                        acc.violation(prefix + ':match-not-leftmost-or-not-genuine:' + case['tr'], '%s maxread=%d expect(%r): after=%r, '
+                                      'before ends %r' % (case['tr'], case['maxread'], pat, c.after, short(c.before[-40:])), case)
+                        return False
                     handed += c.before + c.after
                     nxt = int(c.match.group(1)) + 1
                 elif r < 0.7:
